@@ -403,6 +403,12 @@ func (f *frame) unop(i *ssa.UnOp, st *State) {
 		if g, ok := i.X.(*ssa.Global); ok && v.Sort == "Iface" && g.String() == "crypto/rand.Reader" {
 			e.assume("(not (= (ityp " + n + ") 0))") // A-RAND: the system random source exists
 		}
+		if g, ok := i.X.(*ssa.Global); ok && v.Sort == "Int" && globalInitNonNil(g) {
+			// A-GLOBINIT: a pointer-typed package-level variable assigned exactly once, in the package initialiser, from an
+			// allocation or a constructor that never returns nil
+			e.assume("(not (= " + n + " 0))")
+			e.assumed["A-GLOBINIT: package-level value "+g.String()+" is initialised once, to a non-nil value"] = true
+		}
 		if g, ok := i.X.(*ssa.Global); ok && v.Sort == "Iface" && strings.HasPrefix(g.Name(), "Err") {
 			// A-GLOBERR: exported/unexported error sentinels (var ErrX = errors.New(...)) are never nil
 			e.assume("(not (= (ityp " + n + ") 0))")
@@ -989,4 +995,82 @@ func (f *frame) chanElemInv(v T, cond string, st *State, send bool, at ssa.Instr
 
 func (f *frame) visHeap(r *ssa.Range) string {
 	return "VIS_" + sanitize(relName(f.fn)) + "_" + r.Name()
+}
+
+var globalNonNilCache = map[*ssa.Global]bool{}
+
+// globalInitNonNil: g has pointer type, is stored to exactly once in its package, by the package initialiser, and the
+// stored value is an allocation or the result of a constructor known never to return nil.
+func globalInitNonNil(g *ssa.Global) bool {
+	if v, ok := globalNonNilCache[g]; ok {
+		return v
+	}
+	res := false
+	defer func() { globalNonNilCache[g] = res }()
+	if _, isPtr := g.Type().Underlying().(*types.Pointer).Elem().Underlying().(*types.Pointer); !isPtr || g.Pkg == nil {
+		return false
+	}
+	nonNilCtor := map[string]bool{
+		"github.com/cronokirby/saferith.ModulusFromNat":   true,
+		"github.com/cronokirby/saferith.ModulusFromBytes": true,
+		"github.com/cronokirby/saferith.ModulusFromUint64": true,
+	}
+	stores := 0
+	ok := false
+	for _, m := range g.Pkg.Members {
+		fn, isFn := m.(*ssa.Function)
+		if !isFn {
+			continue
+		}
+		var fns []*ssa.Function
+		fns = append(fns, fn)
+		fns = append(fns, fn.AnonFuncs...)
+		for _, f := range fns {
+			for _, b := range f.Blocks {
+				for _, ins := range b.Instrs {
+					st, isSt := ins.(*ssa.Store)
+					if !isSt || st.Addr != ssa.Value(g) {
+						continue
+					}
+					stores++
+					if f.Name() != "init" {
+						return false
+					}
+					switch x := st.Val.(type) {
+					case *ssa.Alloc:
+						ok = true
+					case *ssa.Call:
+						if c := x.Call.StaticCallee(); c != nil && nonNilCtor[c.String()] {
+							ok = true
+						}
+					}
+				}
+			}
+		}
+	}
+	// methods of the package's types may also store to the global
+	for _, m := range g.Pkg.Members {
+		tn, isT := m.(*ssa.Type)
+		if !isT {
+			continue
+		}
+		for _, t := range []types.Type{tn.Type(), types.NewPointer(tn.Type())} {
+			ms := g.Pkg.Prog.MethodSets.MethodSet(t)
+			for k := 0; k < ms.Len(); k++ {
+				f := g.Pkg.Prog.MethodValue(ms.At(k))
+				if f == nil {
+					continue
+				}
+				for _, b := range f.Blocks {
+					for _, ins := range b.Instrs {
+						if st, isSt := ins.(*ssa.Store); isSt && st.Addr == ssa.Value(g) {
+							return false
+						}
+					}
+				}
+			}
+		}
+	}
+	res = stores == 1 && ok
+	return res
 }
